@@ -155,6 +155,15 @@ func genC16Schemas(r *rng, o c16Opts) ast.Schemas {
 				f.Required = r.chance(50)
 				addField(s, on, f)
 			}
+			if r.chance(15) {
+				t := ast.String()
+				t.Scalar.Constraints = []ast.TypeConstraint{
+					{Op: ast.NotEqualOp, Args: []any{"all"}}, {Op: ast.MinLengthOp, Args: []any{int64(1)}}, {Op: ast.NotEqualOp, Args: []any{"none"}},
+				}
+				f := ast.NewStructField(pick(r, []string{"sel", "scope"}), t)
+				f.Required = r.chance(50)
+				addField(s, on, f)
+			}
 			if r.chance(25) {
 				t := ast.String()
 				t.Scalar.Value = pick(r, []any{"fixed", "", int64(3), true})
@@ -167,6 +176,17 @@ func genC16Schemas(r *rng, o c16Opts) ast.Schemas {
 				t.Scalar.Constraints = []ast.TypeConstraint{
 					{Op: ast.GreaterThanEqualOp, Args: []any{int64(r.intn(5))}},
 					{Op: ast.LessThanOp, Args: []any{int64(10 + r.intn(5)), "ignored"}},
+				}
+				if r.chance(35) {
+					// the same operator more than once (`multipleOf 2` and `multipleOf 3`, two `!=`): the
+					// assignment must carry the whole list, in order, duplicates included
+					op := pick(r, []ast.Op{ast.MultipleOfOp, ast.NotEqualOp, ast.GreaterThanEqualOp})
+					for i := 0; i < 1+r.intn(2); i++ {
+						t.Scalar.Constraints = append(t.Scalar.Constraints, ast.TypeConstraint{Op: op, Args: []any{int64(2 + r.intn(5))}})
+					}
+					if r.chance(50) { // an exact repetition too
+						t.Scalar.Constraints = append(t.Scalar.Constraints, t.Scalar.Constraints[0])
+					}
 				}
 				if r.chance(40) {
 					t.Default = int64(r.intn(9))
